@@ -23,6 +23,9 @@ type actor struct {
 	name  string
 	kind  string // "bls", "ed25519", "secp256k1", "ethsecp"
 	isVal bool
+	// stranger: a funded account that never appears in any honest message (not a sender, recipient,
+	// output address, seller, ...): whatever it signs for others is unauthorized by construction
+	stranger bool
 }
 
 type world struct {
@@ -166,7 +169,7 @@ func (w *world) buildGenesis(nVals int) {
 	w.genesis.Validators = append(w.genesis.Validators, &fsm.Validator{Address: d.addr, PublicKey: d.key.PublicKey().Bytes(), StakedAmount: 700_000,
 		Committees: []uint64{1, 2}, Output: d.addr, Delegate: true, Compound: true})
 	w.genesis.Accounts = append(w.genesis.Accounts, &fsm.Account{Address: d.addr, Amount: 5_000_000})
-	for i, kind := range []string{"ed25519", "secp256k1", "ethsecp", "ed25519"} {
+	for i, kind := range []string{"ed25519", "secp256k1", "ethsecp", "ed25519", "ethsecp"} {
 		a := addActor(kind, fmt.Sprintf("client%d", i), false)
 		amt := []uint64{30_000_000, 0, 1, 25_000_000, 100_000}[(i+t.Intn(5))%5]
 		if kind == "ethsecp" && t.Chance(2, 3) {
@@ -179,6 +182,11 @@ func (w *world) buildGenesis(nVals int) {
 	}
 	if c.Prop == "C14" {
 		w.slashGenesis()
+	}
+	for i, kind := range []string{"ed25519", "ethsecp"} {
+		a := addActor(kind, fmt.Sprintf("mallory%d", i), false)
+		a.stranger = true
+		w.genesis.Accounts = append(w.genesis.Accounts, &fsm.Account{Address: a.addr, Amount: 60_000_000})
 	}
 	// pools: DAO and the reward pool of chain 1 start non-empty in some runs
 	if t.Chance(1, 2) {
